@@ -3,6 +3,7 @@ package mboxprop
 import (
 	"fmt"
 	"net"
+	"os"
 	"strings"
 	"sync"
 	"testing"
@@ -232,6 +233,8 @@ func TestC12MailboxClose(t *testing.T) {
 
 // ---------- C13 at the mailbox layer (5s / 7s ping, 3s pong) ----------
 
+var debugMbox = os.Getenv("VERIF_DEBUG") != ""
+
 type mboxKeepalive struct {
 	Seed     uint64 `json:"seed"`
 	IdleMs   []int  `json:"idle_ms"`    // idle periods on a healthy relay, each followed by an echo
@@ -314,13 +317,28 @@ func runMboxKeepalive(t *testing.T, c *mboxKeepalive) (violation string) {
 		t0 := time.Now()
 		// both ends must notice: ping (5s server / 7s client) + pong 3s, plus
 		// resend/sync waits of the adaptive timeout (>= 1s, boosted)
-		limit := 7*time.Second + 3*time.Second + 30*time.Second
+		// The adaptive resend timeout is 5 x RTT (at least 1s), boosted by
+		// 50% per resend round, and the send loop serves the pong timer only
+		// between resends, each of which waits up to three resend timeouts
+		// for the sync: allow twelve un-boosted resend timeouts, at least 30s.
+		r0 := 5 * 2 * ms(c.LatMs)
+		if r0 < time.Second {
+			r0 = time.Second
+		}
+		slack := 12 * r0
+		if slack < 30*time.Second {
+			slack = 30 * time.Second
+		}
+		limit := 7*time.Second + 3*time.Second + slack
 		got := map[string]bool{}
 		to := time.After(limit)
 		for len(got) < 2 {
 			select {
 			case f := <-failed:
 				got[f.who] = true
+				if debugMbox {
+					fmt.Printf("DBG %s closed %v after silence\n", f.who, time.Since(t0))
+				}
 			case <-data:
 			case <-to:
 				var open []string
